@@ -4,3 +4,5 @@ import Gomjml.Props.C13
 #print axioms Gomjml.Props.C13.C13_failed_parse_not_cached
 #print axioms Gomjml.Props.C13.C13_store_sound
 #print axioms Gomjml.Props.C13.C13_store_sites
+#print axioms Gomjml.Props.C13.C13_concurrent
+#print axioms Gomjml.Props.C13.C13_concurrent_store_sound
